@@ -207,6 +207,10 @@ def long_names(chk):
     chk.add_tlc(res, "GlyphName (exhaustive: first-character class x joined length 1..70 x digest class)")
     if not res.ok:
         chk.tlc_violation(res, "GlyphName")
+    ok, line = common.run_tlapm("GlyphNameProof", ("GlyphName",))   # the same invariants for names of ANY length
+    chk.notes["glyphname_proof"] = line
+    if ok is False:
+        raise MachineryError("GlyphNameProof.tla no longer proves: " + line)
     neg = common.run_tlc("GlyphName", "GlyphName_keepprefix.cfg", timeout=600, coverage=False)
     chk.add_tlc(neg, "GlyphName_keepprefix (prefix not re-decided on the digest: expected to violate ValidIdent)")
     if neg.ok:
